@@ -2148,7 +2148,7 @@ class Parameters:
         for pname, p in objects.items():
             if p.instantiate and pname != "name":
                 params_to_deepcopy[pname] = p
-            elif p.constant and pname != 'name':
+            elif p.constant and (pname != 'name' or 'name' not in self._param__private.values):
                 params_to_ref[pname] = p
 
         for p in params_to_deepcopy.values():
